@@ -342,6 +342,11 @@ fn gen_c02(rng: &mut Prng, seed: u64, thorough: bool) -> Trace {
         for raw in [vec![0xffu8; 32], vec![0xffu8; 64], p_le.clone(), big.clone(), [p_le.clone(), vec![0xffu8; 32]].concat()] {
             steps.push(Step::Deliver { msg, node: 0, via: 2, alter: Alter::None, roots: Roots::Raw(raw), reader: ReadPlan::clean() });
         }
+        // near misses of the root in an otherwise well-formed set: straddling two entries, one bit off at either end, reversed
+        for roots in [Roots::Near { kind: 0, at: 16 }, Roots::Near { kind: 0, at: 1 + rng.usize_below(31) }, Roots::Near { kind: 1, at: 31 }, Roots::Near { kind: 1, at: 0 },
+                      Roots::Near { kind: 1, at: rng.usize_below(32) }, Roots::Near { kind: 2, at: 0 }] {
+            steps.push(Step::Deliver { msg, node: 0, via: 2, alter: Alter::None, roots, reader: ReadPlan::clean() });
+        }
         // verifier states: a node that never had the root
         for (via, roots) in [(1u8, Roots::Window), (2, Roots::Window), (2, Roots::Without), (2, Roots::WindowPlus)] {
             steps.push(Step::Deliver { msg, node: 1, via, alter: Alter::None, roots, reader: ReadPlan::clean() });
@@ -399,9 +404,21 @@ fn gen_c03(rng: &mut Prng, seed: u64, _thorough: bool) -> Trace {
     let n_synth = 40;
     for _ in 0..n_synth {
         let secret = gen_fr(rng);
-        let ext1 = gen_fr(rng);
+        let mut ext1 = gen_fr(rng);
         let same_ext = rng.chance(3, 4);
-        let ext2 = if same_ext { ext1 } else { ext1 + Fr::from(1u64 + rng.below(5)) };
+        let ext2 = if same_ext {
+            ext1
+        } else if rng.chance(1, 2) {
+            ext1 + Fr::from(1u64 + rng.below(5))
+        } else {
+            // two external nullifiers whose encodings differ in exactly one byte, at either end or in the middle
+            let mut b = rng.bytes(32);
+            b[31] &= 0x1f;
+            ext1 = fr_from_le(&b);
+            let k = *rng.pick(&[31usize, 31, 30, 16, 15, 1, 0]);
+            b[k] ^= 1 << rng.below(5);
+            fr_from_le(&b)
+        };
         let x1 = gen_fr(rng);
         let x2 = match rng.weighted(&[5, 2, 1]) {
             0 => gen_fr(rng),
